@@ -57,11 +57,16 @@ check("C13", "model_checking",
       "stay pending); send(k), send(k+1), send(k+5) return TooManyRecords (no panic, no block); the exchange completes within the "
       "deadline. Isolation: all 6 directed helper pairs x 2 gates x every shard x shard-to-shard channels on the same gates, at once, "
       "payload = code(channel, record). Schedule arm (config B): sender tasks, receiver tasks, the gateway's spawned stream task and "
-      "the transport under the preemption-bounded DFS scheduler inside an exploration window.",
+      "the transport under the preemption-bounded DFS scheduler inside an exploration window. Lost chunk: the receive path "
+      "transport stream -> LogErrors -> UnorderedReceiver on every chunking of 1..5 (6) messages of 1, 2 and 3 bytes with a transport "
+      "error item at every position (more chunks follow it): the records wholly in front of the error are delivered, no later "
+      "request is ever handed a message.",
       [{"name": "channels", "config": "A", "test": "verif::c13::run", "timeout": {"quick": 900, "thorough": 3600},
         "require": {"any": {"channel_cases": 10000, "isolation_receives": 500}}},
        {"name": "sched", "config": "B", "test": "verif::c13s::run", "workers": {"quick": 16, "thorough": 16},
-        "timeout": {"quick": 900, "thorough": 7200}, "require": {"any": {"distinct:completion_orders": 2}}}],
+        "timeout": {"quick": 900, "thorough": 7200}, "require": {"any": {"distinct:completion_orders": 2}}},
+       {"name": "lost-chunk", "config": "A", "test": "helpers::buffers::verif::c14_recv::run_log_errors",
+        "require": {"any": {"lost_chunk_cases": 1000}}}],
       assumptions=["in-memory transport only (the HTTP transport is outside the anchors)",
                    "shuttle models every atomic as SeqCst; tokio mpsc / DashMap operations inside the transport execute atomically within a step; "
                    "preemption bounds as listed in coverage.set_sched.bounds_completed",
